@@ -15,8 +15,10 @@
                   and filled it afterwards (TreeAtomic = FALSE: the tree is visible while partial); since the "fix:"
                   commit it is written under a temporary name and renamed when complete (TreeAtomic = TRUE)
                                                                                          [hook rot.tree.created]
-     RotMeta      (flushes a non-empty buffer first; completes the tree) segmeta.json entry + AddSegMetaToMetadata: the
-                  segment is now ALSO in the rotated metadata                            [hook rot.metadata.visible]
+     RotSegmeta   (flushes a non-empty buffer first; completes the tree) the segment's line is appended to segmeta.json;
+                  nothing a query looks at has changed yet: the segment must still be found through the unrotated
+                  info until RotMeta has happened                                        [hook rot.metadata.begin]
+     RotMeta      AddSegMetaToMetadata: the segment is now ALSO in the rotated metadata  [hook rot.metadata.visible]
      RotRemove    removeSegKeyFromUnrotatedInfo: no longer in the unrotated info         [hook rot.unrotated.removed]
      RotEnd       segstore reset, next segment                                            [hook rot.end]
    Query (one at a time is enough: queries do not interact):
@@ -60,7 +62,7 @@ VARIABLES nextId,      \* next event id (events are 1..nextId-1)
           wip,         \* set of event ids in the in-memory block
           segs,        \* sequence of segments: [ev |-> set of searchable event ids, inU |-> BOOLEAN, inR |-> BOOLEAN,
                        \*                        tree |-> "none" | "partial" | "complete" (what a reader of the tree file finds)]
-          wpc,         \* writer pc: "idle" | "fvis" | "rtree" | "rmeta" | "rrem"
+          wpc,         \* writer pc: "idle" | "fvis" | "rtree" | "rsegmeta" | "rmeta" | "rrem"
           nflush, nrot,
           qpc,         \* "none" | "snapU" | "snapR" | "checked" | "planned" | "ochecked" | "opened" | "fchecked" | "done"
           snapU, snapR,\* sets of segment indexes
@@ -101,12 +103,16 @@ RotTree == /\ UseTree /\ wpc = "idle" /\ nrot < MaxRot /\ (segs[Cur].ev # {} \/ 
                                                          !.tree = IF TreeAtomic THEN "none" ELSE "partial"]]
            /\ wip' = {} /\ wpc' = "rtree" /\ nrot' = nrot + 1
            /\ UNCHANGED <<nextId, nflush, qpc, qvars>>
-RotMeta == /\ \/ ~UseTree /\ wpc = "idle" /\ nrot < MaxRot /\ (segs[Cur].ev # {} \/ wip # {}) /\ nrot' = nrot + 1
-              \/ UseTree /\ wpc = "rtree" /\ nrot' = nrot
-           /\ segs' = [segs EXCEPT ![Cur] = [ev |-> @.ev \cup wip, inU |-> TRUE, inR |-> TRUE,
-                                             tree |-> IF UseTree THEN "complete" ELSE "none"]]
-           /\ wip' = {} /\ wpc' = "rmeta"
-           /\ UNCHANGED <<nextId, nflush, qpc, qvars>>
+RotSegmeta == /\ \/ ~UseTree /\ wpc = "idle" /\ nrot < MaxRot /\ (segs[Cur].ev # {} \/ wip # {}) /\ nrot' = nrot + 1
+                 \/ UseTree /\ wpc = "rtree" /\ nrot' = nrot
+              /\ segs' = [segs EXCEPT ![Cur] = [ev |-> @.ev \cup wip, inU |-> TRUE, inR |-> @.inR,
+                                                tree |-> IF UseTree THEN "complete" ELSE "none"]]
+              /\ wip' = {} /\ wpc' = "rsegmeta"
+              /\ UNCHANGED <<nextId, nflush, qpc, qvars>>
+RotMeta == /\ wpc = "rsegmeta"
+           /\ segs' = [segs EXCEPT ![Cur] = [@ EXCEPT !.inR = TRUE]]
+           /\ wpc' = "rmeta"
+           /\ UNCHANGED <<nextId, wip, nflush, nrot, qpc, qvars>>
 RotRemove == /\ wpc = "rmeta"
              /\ segs' = [segs EXCEPT ![Cur] = [@ EXCEPT !.inU = FALSE]]
              /\ wpc' = "rrem"
@@ -179,7 +185,7 @@ QFetchGet == /\ qpc = "fchecked"
              /\ UNCHANGED <<nextId, wip, segs, wpc, nflush, nrot, snapU, snapR, asU, visAtStart, plan, openU, opened, badTree>>
 
 Next == \/ \E n \in 1..2 : Ingest(n)
-        \/ FlushVis \/ FlushEnd \/ RotTree \/ RotMeta \/ RotRemove \/ RotEnd
+        \/ FlushVis \/ FlushEnd \/ RotTree \/ RotSegmeta \/ RotMeta \/ RotRemove \/ RotEnd
         \/ QSnapU \/ QSnapR \/ QTree \/ QCheck \/ QPlan \/ QOpenCheck \/ QOpenGet \/ QFetchCheck \/ QFetchGet
 Spec == Init /\ [][Next]_vars
 -----------------------------------------------------------------------------
@@ -196,5 +202,5 @@ NoPartialTree == ~badTree
 NoDamage == damaged = {}
 \* a segment is never in neither list while it has searchable events
 NeverInNeither == \A i \in 1..Len(segs) : segs[i].ev # {} => (segs[i].inU \/ segs[i].inR)
-TypeOK == /\ wpc \in {"idle", "fvis", "rtree", "rmeta", "rrem"} /\ qpc \in {"none", "snapU", "snapR", "tree", "checked", "planned", "ochecked", "opened", "fchecked", "done"}
+TypeOK == /\ wpc \in {"idle", "fvis", "rtree", "rsegmeta", "rmeta", "rrem"} /\ qpc \in {"none", "snapU", "snapR", "tree", "checked", "planned", "ochecked", "opened", "fchecked", "done"}
 =============================================================================
